@@ -18,12 +18,13 @@ import (
 //
 //  1. Value flow. Every read of an option field must flow only through boolean structure (`!`, `&&`, `||`,
 //     parentheses) into (a) a branch condition, (b) a local assigned once (its reads are followed), (c) an
-//     argument of a function of the package (the reads of the parameter are followed), or (d) the result of a
-//     predicate helper whose body is one `return E` (its call sites are followed). Anything else (stored,
+//     argument of a function of the package (the reads of the parameter are followed), or (d) a boolean result of a
+//     helper (one `return E`, one of several returns, a member of a (value, ok) pair; its call sites are followed and
+//     evaluated through the helper, c17_result.go). Anything else (stored,
 //     compared, passed outside the package) is reported.
 //  2. Uses. A *use* is a branching CFG block whose feasible successors differ between option=set and
-//     option=unset (conditions are evaluated three-valued, looking through aliases, parameters and predicate
-//     helpers). For each use the blocks executed only on the subtracting side (`only`) and the blocks the
+//     option=unset for some value of the member type the bookkeeping distinguishes (conditions are evaluated
+//     three-valued, looking through aliases, parameters, helper results and the nil-ness of helper results). For each use the blocks executed only on the subtracting side (`only`) and the blocks the
 //     subtracting side bypasses (`skipped`) are computed from reachability. The subtracting side is option=set
 //     for NoID/NoMeta/NoRelationMembership and option=unset for IncludeInvalidPolygons.
 //       - `only` must have no visible effect and may leave only by `return <nil/zero/unchanged parameter>`;
@@ -55,6 +56,7 @@ type c17G3An struct {
 	reach   map[string]map[*cfg.Block]bool
 	book    map[*cfg.Block]bool // blocks of the membership bookkeeping (skipped for non-node members)
 	nUses   map[*types.Var]int
+	resDone map[string]bool
 }
 
 // subtracting side of each role: true = the option being set removes something.
@@ -127,24 +129,48 @@ func c17G3(r *core.R) {
 				if !b.Live || fn.cond(b) == nil {
 					continue
 				}
-				dT, dF := an.a.succsUnder(fn, b, an.dval(f))
-				aT, aF := an.a.succsUnder(fn, b, an.val(f, !c17RoleDSet(role)))
-				if dT == aT && dF == aF {
+				// the branch is a use when, for some value of the member type the bookkeeping distinguishes (or without
+				// assuming one), the feasible successors differ between the two values of the option; every distinct
+				// orientation (which successor the subtracting side takes) is examined
+				tried := map[*cfg.Block]bool{}
+				for _, mt := range an.a.memberTypes() {
+					vd, va := an.dval(f), an.val(f, !c17RoleDSet(role))
+					vd.memberType, va.memberType = mt, mt
+					dT, dF := an.a.succsUnder(fn, b, vd)
+					aT, aF := an.a.succsUnder(fn, b, va)
+					if dT == aT && dF == aF {
+						continue
+					}
+					var dS, aS *cfg.Block
+					switch {
+					case dT && !aT:
+						dS, aS = b.Succs[0], b.Succs[1]
+					case dF && !aF:
+						dS, aS = b.Succs[1], b.Succs[0]
+					case dT && !dF:
+						dS, aS = b.Succs[0], b.Succs[1]
+					default:
+						dS, aS = b.Succs[1], b.Succs[0]
+					}
+					if tried[dS] {
+						continue
+					}
+					tried[dS] = true
+					an.nUses[f]++
+					an.checkUse(f, role, fn, b, dS, aS)
+				}
+				if len(tried) == 0 {
 					continue
 				}
-				var dS, aS *cfg.Block
-				switch {
-				case dT && !aT:
-					dS, aS = b.Succs[0], b.Succs[1]
-				case dF && !aF:
-					dS, aS = b.Succs[1], b.Succs[0]
-				case dT && !dF:
-					dS, aS = b.Succs[0], b.Succs[1]
-				default:
-					dS, aS = b.Succs[1], b.Succs[0]
+				// a branch on the option inside a helper with boolean results can make the results depend on it
+				sig := fn.Obj.Type().(*types.Signature)
+				for i := 0; i < sig.Results().Len(); i++ {
+					if c17IsBool(sig.Results().At(i).Type()) && an.resultDepends(fn, f, i, sig.Results().Len()) {
+						if why := an.coverResult(fn, f, i, sig.Results().Len(), 0); why != "" {
+							r.Bad("read@"+fn.Name()+" "+f.Name(), fn.cond(b).Pos(), "%s: an option may only decide branches; here its value escapes the analysis, so it can change more than it documents", why)
+						}
+					}
 				}
-				an.nUses[f]++
-				an.checkUse(f, role, fn, b, dS, aS)
 			}
 		}
 		if an.nUses[f] == 0 && len(c17FieldReads(r.P, o.pk, f)) > 0 {
@@ -421,16 +447,25 @@ func (an *c17G3An) cover(fn *c17Fn, read ast.Expr, f *types.Var, depth int) stri
 		}
 		return why
 	case *ast.ReturnStmt:
-		if singleReturnExpr(fn.FuncInfo) == top && c17IsBool(info.TypeOf(top)) {
-			if a.refs[fn.Obj] != len(a.calls[fn.Obj]) || fn.Obj.Exported() {
-				return fmt.Sprintf("predicate %s returning %s is exported or used as a function value", fn.Name(), f.Name())
+		// the result of a helper (one-line predicate or one of several returns; also the ok of a (value, ok) pair): the
+		// call sites are evaluated through the helper (c17_result.go), so each of them must be a branch position
+		isResult := false
+		for _, res := range p.Results {
+			if res == top {
+				isResult = true
 			}
-			for _, cs := range a.calls[fn.Obj] {
-				if why := an.cover(cs.fn, cs.call, f, depth+1); why != "" {
-					return why
+		}
+		if isResult && c17IsBool(info.TypeOf(top)) && enclosing(par, p, func(n ast.Node) bool { _, ok := n.(*ast.FuncLit); return ok }) == nil {
+			idx := 0
+			for i, res := range p.Results {
+				if res == top {
+					idx = i
 				}
 			}
-			an.r.OKTrivial(c, top.Pos(), "`return %s`: predicate helper with %d call site(s), each ending in a branch condition (classified separately)", src(fset, top), len(a.calls[fn.Obj]))
+			if why := an.coverResult(fn, f, idx, len(p.Results), depth); why != "" {
+				return why
+			}
+			an.r.OKTrivial(c, top.Pos(), "`%s`: result of a helper with %d call site(s), where it ends in branch conditions (evaluated through the helper, classified separately)", src(fset, p), len(a.calls[fn.Obj]))
 			return ""
 		}
 	}
@@ -729,4 +764,66 @@ func (an *c17G3An) memberReads() {
 			r.Bad(c, rd.expr.Pos(), "`%s` in `%s` reads the membership map where NoRelationMembership may be set, with a key that is not a node's feature id; entries of way/relation members are not recorded when the option is set, so the option would change this result", src(fset, rd.expr), src(fset, par[rd.expr]))
 		}
 	}
+}
+
+// coverResult follows the idx-th (boolean) result of helper fn, which depends on option f, to its call sites: a single
+// result must stand in a branch position (or be held in a local, …) like any other read; a member of a tuple must be
+// bound by `…, ok, … := fn(…)` to a local assigned nowhere else, whose reads are followed.
+func (an *c17G3An) coverResult(fn *c17Fn, f *types.Var, idx, nres, depth int) string {
+	a, info, fset := an.a, an.a.info, an.a.fset
+	key := fmt.Sprintf("%s|%s|%d", fn.Name(), f.Name(), idx)
+	if an.resDone == nil {
+		an.resDone = map[string]bool{}
+	}
+	if an.resDone[key] {
+		return ""
+	}
+	an.resDone[key] = true
+	if a.refs[fn.Obj] != len(a.calls[fn.Obj]) || fn.Obj.Exported() {
+		return fmt.Sprintf("helper %s, whose result depends on %s, is exported or used as a function value", fn.Name(), f.Name())
+	}
+	for _, cs := range a.calls[fn.Obj] {
+		if nres == 1 {
+			if why := an.cover(cs.fn, cs.call, f, depth+1); why != "" {
+				return why
+			}
+			continue
+		}
+		as, ok := cs.fn.parents()[cs.call].(*ast.AssignStmt)
+		if !ok || len(as.Rhs) != 1 || len(as.Lhs) != nres {
+			return fmt.Sprintf("`%s`: the results of %s, one of which depends on %s, are not bound by a tuple assignment", src(fset, cs.call), fn.Name(), f.Name())
+		}
+		if id, isID := ast.Unparen(as.Lhs[idx]).(*ast.Ident); isID && id.Name == "_" {
+			continue
+		}
+		o := objOf(info, as.Lhs[idx])
+		if h, i, _ := a.tupleInit(cs.fn, o); o == nil || h != fn || i != idx {
+			return fmt.Sprintf("`%s` binds the result of %s that depends on %s to something other than a local assigned once", src(fset, as), fn.Name(), f.Name())
+		}
+		why := ""
+		ast.Inspect(cs.fn.Decl.Body, func(m ast.Node) bool {
+			id, ok := m.(*ast.Ident)
+			if !ok || info.Uses[id] != o || why != "" {
+				return why == ""
+			}
+			why = an.cover(cs.fn, id, f, depth+1)
+			return why == ""
+		})
+		if why != "" {
+			return why
+		}
+	}
+	return ""
+}
+
+// resultDepends: for some member type (or none assumed) the idx-th result of fn evaluates differently with f set and unset.
+func (an *c17G3An) resultDepends(fn *c17Fn, f *types.Var, idx, nres int) bool {
+	for _, mt := range an.a.memberTypes() {
+		vs, vu := an.val(f, true), an.val(f, false)
+		vs.memberType, vu.memberType = mt, mt
+		if an.a.evalResult(fn, idx, nres, vs, 0) != an.a.evalResult(fn, idx, nres, vu, 0) {
+			return true
+		}
+	}
+	return false
 }
